@@ -44,11 +44,11 @@ Proof.
     erewrite flat_map_ext; [|intros f; apply hide_if]. apply flat_map_filter_gen.
   - intros [fn cls md file ln src loc h hl cs]. simpl. f_equal.
     rewrite <- flat_map_filter_gen. apply flat_map_ext. intros c.
-    destruct c as [ty asy ex vn sl ds csrc cr orp inn ks hh]. simpl. rewrite hide_if. reflexivity.
+    destruct c as [ty asy ex vn sl ds csrc cr orp inn ks hh]. simpl. rewrite hide_if. destruct (visb sh hh); reflexivity.
   - intros p ov [ty asy ex vn sl ds csrc cr orp inn ks hh]. simpl. rewrite hide_if.
     destruct (visb sh hh); auto. f_equal. f_equal.
     unfold child_contexts. induction ks as [|k ks IH]; simpl; auto.
-    destruct k as [c'|s']; simpl; rewrite IH; auto. rewrite app_nil_r. reflexivity.
+    destruct k as [c1|s1]; simpl; rewrite IH; auto.
 Qed.
 
 (* the summary and the tree format select the same visible frames / contexts, in the same
